@@ -58,7 +58,7 @@ BUILT["C16"]=("bounded-exhaustive enumeration of output types / key forms / netw
         "Every output type x key form x network and every B term up to the node bound inside sh/wsh/sh-wsh/tr: scriptPubKey, address, explicit_script, script_code and unsigned_script_sig equal byte-level references and a spend signed over script_code() verifies on the reference Script machine; xpub key expressions x indices equal independent BIP32 derivation with the documented errors; all key permutations of sortedmulti give one scriptPubKey; multipath split equals textual selection. Also: desc_type, the wrapper types' own accessors, alternative constructors, key-expression accessors, find_derivation_index_for_spk over every range within 0..5, two multipath keys on one xpub, and secret key expressions (to_public commutes with private BIP32 derivation for 384 expressions).",
         "3 C16")
 BUILT["C14"]=("explicit-state breadth-first search over PSBT operation histories (states = real Psbt values deduplicated by BIP174 serialisation)",
-        "For each descriptor pair of a 15-member family, ALL histories of update / add-signature / add-preimage / finalize / finalize_mall / finalize_inp / finalize_inp_mall up to the depth bound (most pairs reach closure) are executed on real two-input PSBTs; on every transition: finalized inputs validate on the reference Script machine, final inputs are never altered by finalization, a failing finalize leaves the input byte-identical, idempotence, result consistency, order independence of data actions (one state per action set), extract succeeds iff all inputs are final and the extracted transaction validates, update records scripts / origins / taproot data that verify, sighash_msg equals the independent digest. Time-locked pairs are explored under nine transaction parameter sets (versions 0-3, sequence 4 / final / disable flag, lock time 9, time units).",
+        "For each descriptor pair of a 25-member family, ALL histories of update / add-signature / add-preimage / finalize / finalize_mall / finalize_inp / finalize_inp_mall up to the depth bound (most pairs reach closure) are executed on real two-input PSBTs; on every transition: finalized inputs validate on the reference Script machine, final inputs are never altered by finalization, a failing finalize leaves the input byte-identical, idempotence, result consistency, order independence of data actions (one state per action set), extract succeeds iff all inputs are final and the extracted transaction validates, update records scripts / origins / taproot data that verify, sighash_msg equals the independent digest. Time-locked pairs are explored under nine transaction parameter sets (versions 0-3, sequence 4 / final / disable flag, lock time 9, time units).",
         "3 C14")
 BUILT["C18"]=("exhaustive enumeration of policies up to a node bound with truth-table (all assignments) oracles",
         "ALL semantic policies up to the node bound over 12 atoms (repeated atoms, TRIVIAL/UNSATISFIABLE children, thresholds with every k): normalized/sorted keep the truth table over all assignments, at_age/at_lock_time equal the restriction for every value around every lock in both units, n_keys, minimum_n_keys vs exhaustive assignment search; entails vs truth-table implication on ALL ordered pairs up to the pair bound; concrete policies: lift keeps the truth table, check_timelocks fires iff some satisfying path mixes units. Also: thresholds of 4 and 5 children over keys / constants / lock / nested conjunction (every k), lock accessors, is_trivial / is_unsatisfiable; miniscript side: node-level timelock_info and has_mixed_timelocks on a lock-interplay family and on every full-alphabet term.",
@@ -102,6 +102,21 @@ R7={
  "C20":"decode + substitute_raw_pkh over concrete keys equals the direct build (structure, type, figures); translation to definite keys gives the figures of the same raw keys; branches / contains_raw_pkh / iter.",
 }
 for _k,_add in R7.items():
+    _a,_b,_c=BUILT[_k]
+    BUILT[_k]=(_a,_b+" "+_add,_c)
+R8={
+ "C01":"sh(wsh(X)) is satisfied exactly like wsh(X) (both modes). or_c macro fragments in every hole.",
+ "C03":"sh(wsh(X)) twin lemma: the non-malleable satisfaction of sh(wsh(X)) is the one of wsh(X), and it refuses where wsh(X) refuses.",
+ "C06":"The type the script decoder assigns to the same bytes is judged against the same executions.",
+ "C07":"Lift ladder: from_ast conjunction chains of 98..203 keys must be refused by lift() exactly beyond the literal limits.",
+ "C10":"A script mixing multipath expressions of different lengths must be refused by both descriptor parsers (rule computed from the assignment).",
+ "C11":"Arity edits: every argument list of every source string with one argument removed / repeated / all removed.",
+ "C12":"The multisig kinds of the other script family in every context; parsers judged also where the constructor refuses.",
+ "C13":"or_c macro fragments in every hole of the shared families.",
+ "C14":"Stale-signatures configuration: signatures made for another transaction, nothing that needs a signature may be finalized.",
+ "C20":"Translation into multipath keys: 81 path-tuple length assignments x 7 descriptors, accepted iff every single script agrees.",
+}
+for _k,_add in R8.items():
     _a,_b,_c=BUILT[_k]
     BUILT[_k]=(_a,_b+" "+_add,_c)
 NA_REASON={}
